@@ -227,6 +227,10 @@ func (server *SugarDB) setValues(ctx context.Context, entries map[string]interfa
 		if _, ok := server.store[database][key]; ok {
 			expireAt = server.store[database][key].ExpireAt
 		}
+		if expireAt != (time.Time{}) && expireAt.Before(server.clock.Now()) {
+			// The previous value has expired: the new value does not inherit its deadline.
+			expireAt = time.Time{}
+		}
 		server.store[database][key] = internal.KeyData{
 			Value:    value,
 			ExpireAt: expireAt,
